@@ -1663,3 +1663,30 @@ Theorem graph_order_fuel : forall ns u acc, order_inv ns acc ->
 Proof.
   intros ns u acc HI. apply add_node_fuel_sufficient; [exact HI|]. unfold uids. rewrite map_length. lia.
 Qed.
+
+(* ==================================================================================== *)
+(* 17. sessions on one adapter instance                                                  *)
+(* ==================================================================================== *)
+Theorem model_holds_session : forall ops adapting q,
+  holds_session ops adapting q (is_native (run_ops ops) q)
+                (if adapting then adapted_is_same (adapt_func (run_ops ops) q) else false)
+                (expect_recv_dom (run_ops ops) adapting q) = true.
+Proof.
+  intros ops adapting q. unfold holds_session, expect_recv_dom, adapt_func. rewrite (registry_history ops q).
+  destruct (last_op_on (underlying q) ops None) as [[]|]; destruct adapting; reflexivity.
+Qed.
+
+(* what the function sees when the outcome of adapt_func is called with one internal graph
+   (BaseNetworkxAdapter): the graph itself if native, the restored domain graph otherwise *)
+Theorem session_call_model : forall {G M} (cvA : G -> G) (cvR : G -> option M -> G) den fl q g,
+  (is_native fl q = true ->
+     call_adapted cvA cvR ANx den (adapt_func fl q) [VGraph KOpt g] [] = den q [VGraph KOpt g] []) /\
+  (is_native fl q = false ->
+     call_adapted cvA cvR ANx den (adapt_func fl q) [VGraph KOpt g] [] =
+     bind (den q [VGraph KDom (cvR g None)] []) (transform_result (adapt cvA ANx))).
+Proof.
+  intros. split; intros H.
+  - rewrite native_as_is by exact H. reflexivity.
+  - rewrite not_native_wrapped by exact H. reflexivity.
+Qed.
+
